@@ -970,7 +970,8 @@ fn cmd_run(args: &Args) -> i32 {
     }
     let kinds = [
         "Other(EIO)", "UnexpectedEof", "TimedOut", "WouldBlock", "PermissionDenied", "NotFound",
-        "BrokenPipe", "ConnectionReset", "InvalidInput",
+        "BrokenPipe", "ConnectionReset", "InvalidInput", "InvalidData", "Unsupported", "NotConnected",
+        "OutOfMemory",
     ];
     let mut by_kind = serde_json::Map::new();
     for (i, n) in kinds.iter().enumerate() {
